@@ -169,7 +169,7 @@ def all_scenarios():
 def run(ctx):
     model(ctx)
     scs = all_scenarios()
-    ctx.validate('TraceC08', scs)
+    ctx.validate('TraceC08', scs, jvms=8)
     offered = [s for s in scs if s['events'][0]['err'] == '']
     ctx.notes['distinct_nontrivial'] = sum(1 for s in offered if s['recipe']['n'] >= 1)
     ctx.notes['rules_offered'] = len(offered)
